@@ -93,4 +93,11 @@ def normAt (add sub div : α → α → α) (sqabs sqrt : α → α) (divn : α 
 /-- `j` with the coordinate `k` inserted at position `ax` -/
 def insAt (j : Idx) (ax k : Nat) : Idx := j.take ax ++ k :: j.drop ax
 
+/-- the value `view::bilinear` computes for output `[b, o]` of rank-2 inputs: for each `j` the inner sum
+    `Σ_i x[b,i]·w[o,i,j]` (folded from its first term) times `y[b,j]`, these `J` terms folded from the first -/
+def bilinearAt (add mul : α → α → α) (x y w : Idx → α) (I J b o : Nat) : Option α :=
+  ((List.range J).mapM fun j =>
+      (Reduce.foldFirst add none ((List.range I).map fun i => mul (x [b, i]) (w [o, i, j]))).map fun S => mul S (y [b, j])).bind
+    fun terms => Reduce.foldFirst add none terms
+
 end NmVerif.NN
